@@ -55,7 +55,7 @@ class Contracts(Generic[F]):
         if state.removed:
             return func
         contracts = cls._ensure_wrapped(func)
-        validator.function = func
+        validator.function = contracts.func
         getattr(contracts, contract_type).append(validator)
         return contracts.wrapped
 
